@@ -6,7 +6,7 @@
 
    Paths are modelled as pathlib.PurePosixPath values: a root (0 = relative, 1 = "/",
    2 = "//") and the list of parts after the root.                                  *)
-From Coq Require Import List NArith ZArith Bool Arith.
+From Coq Require Import List NArith ZArith Bool Arith Permutation.
 From XV Require Import model.Walk.
 Import ListNotations.
 Open Scope N_scope.
@@ -142,6 +142,41 @@ Definition seal_edges (n : nat) (nd : node) : list edge :=
   ++ match task nd with Some t => if Nat.eqb t n then [] else [([], t)] | None => [] end.
 (* before fixes/C17-2.diff: insertion order of the dict *)
 Definition seal_edges_insertion : nat -> node -> list edge := node_edges true.
+
+(* ---- the order in which the walk visits the parameters of a configuration ------------ *)
+(* ConfigInformation.values is a dict in ASSIGNMENT order: Config.__init__ puts the defaults of the
+   arguments not given to the constructor first (declaration order), then the keyword arguments in
+   the order they are written; a later assignment keeps the position of its key.  The identifier
+   does not depend on that order (HashComputer sorts the arguments by name).  ConfigWalk.__call__
+   iterates `info.xpmvalues()` (l.512 and l.707-711): the DECLARED arguments, in declaration order,
+   that are present in .values.
+   From here on a heap may hold `fields` in assignment order; `by_decl` is what the walk sees.  *)
+Fixpoint assoc_str {A} (k : str) (l : list (str * A)) : option A :=
+  match l with
+  | [] => None
+  | kv :: l' => if str_eqb k (fst kv) then Some (snd kv) else assoc_str k l'
+  end.
+
+(* for argument in xpmtype.arguments.values(): if argument.name in self.values: yield ... *)
+Definition xpmvalues (decl : list str) (vals : list (str * value)) : list (str * value) :=
+  flat_map (fun a => match assoc_str a vals with Some v => [(a, v)] | None => [] end) decl.
+
+(* decls: for class c, the names of all its declared arguments, in declaration order *)
+Definition by_decl (decls : list (list str)) (nd : node) : node :=
+  {| cls := cls nd; fields := xpmvalues (nth (cls nd) decls []) (fields nd);
+     pre := pre nd; init := init nd; task := task nd; sealed := sealed nd |}.
+
+(* the edges the Sealer follows from a configuration whose .values are in assignment order *)
+Definition seal_edges_decl (decls : list (list str)) (n : nat) (nd : node) : list edge :=
+  seal_edges n (by_decl decls nd).
+(* a walk iterating `info.values.items()` instead: assignment order *)
+Definition seal_edges_assigned : nat -> node -> list edge := seal_edges.
+
+(* the same configuration assigned in another order: same classes, same (name, value) pairs *)
+Definition node_reassigned (nd nd' : node) : Prop :=
+  cls nd = cls nd' /\ Permutation (fields nd) (fields nd') /\ NoDup (map fst (fields nd)) /\
+  pre nd = pre nd' /\ init nd = init nd' /\ task nd = task nd' /\ sealed nd = sealed nd'.
+Definition heap_reassigned (h h' : heap) : Prop := Forall2 node_reassigned h h'.
 
 (* ---- the generated values -------------------------------------------------------- *)
 Record entry := {
